@@ -20,7 +20,7 @@ from fractions import Fraction as F
 import core
 import gen
 
-PROOF_MODULES = ["UnytProofs.C15", "UnytProofs.C15Tab1", "UnytProofs.C15Tab2", "UnytProofs.C15Tab3"]
+PROOF_MODULES = ["UnytProofs.C15", "UnytProofs.C15Tab1", "UnytProofs.C15Tab2", "UnytProofs.C15Tab3", "UnytProofs.C15Tab4"]
 
 GUISE_TOL = F(1, 2 ** 45)
 C2_1E7 = F(299792458) ** 2 / 10 ** 7  # 1/(4 pi eps_0) in the pre-2019 SI: (q_Gauss / q_SI)^2
@@ -67,7 +67,8 @@ def same(a, b, tol=TOL):
     return False
 
 def space(sid):
-    """the namespace `sid`: pc | top | fresh | sys:<unit system> | custom:<length>,<mass>,<time>,<temperature>"""
+    """the namespace `sid`: pc | top | fresh | sys:<unit system> | custom-registry (user units added) |
+    custom:<length>,<mass>,<time>,<temperature>"""
     if sid == "pc":
         import unyt.physical_constants as pc
         return {k: v for k, v in vars(pc).items() if isinstance(v, unyt_quantity)}
@@ -78,6 +79,11 @@ def space(sid):
         add_constants(ns, UnitRegistry())
     elif sid.startswith("sys:"):
         add_constants(ns, UnitRegistry(unit_system=sid[4:]))
+    elif sid == "custom-registry":
+        reg = UnitRegistry(unit_system="imperial")
+        reg.add("c15_rod", 5.0292, D.length, tex_repr=r"\\rm{rod}")
+        reg.add("c15_scruple", 1.2959782e-3, D.mass)
+        add_constants(ns, reg)
     elif sid.startswith("custom:"):
         l, m, t, T = sid[7:].split(",")
         name = "c15_" + "_".join((l, m, t, T))
@@ -159,6 +165,7 @@ def run(tier, seed):
     # ------------------------------------------------------------------ namespaces on the live library
     builtin = sorted(k for k in unyt.unit_systems.unit_system_registry if not k.startswith("c15_"))
     sids = ["pc", "top", "fresh"] + ["sys:" + s for s in builtin] + ["custom:ft,oz,min,R"]
+    oracle_only = ["custom-registry"]
     gen_sid = {"custom:ft,oz,min,R": "sys:c15_custom"}  # id used by the translator for the same system
     # further custom unit systems (direct oracle only), seeded
     lengths = ["m", "cm", "km", "ft", "mile", "inch", "pc", "kpc", "AU", "ly", "Rsun", "nm", "Å", "furlong", "smoot"]
@@ -172,7 +179,7 @@ def run(tier, seed):
         if sid not in extra and sid not in sids:
             extra.append(sid)
     live = {}
-    for sid in sids + extra:
+    for sid in sids + oracle_only + extra:
         try:
             live[sid] = space(sid)
         except Exception as e:  # noqa: BLE001
@@ -415,7 +422,7 @@ def run(tier, seed):
                                         f"assert abs(mag(q) - F({str(ref)!r})) <= F({str(tol)!r}) * abs(F({str(ref)!r})), float(mag(q))\n")})
 
     # ------------------------------------------------------------------ model checks and exclusion lists
-    checks = [f"c15.check\t{w}" for w in ("relations", "numrelations", "top")] \
+    checks = [f"c15.check\t{w}" for w in ("relations", "numrelations", "top", "constdoubles", "unitdoubles", "unsuffixed")] \
         + ["c15.check\tunitconst\t1", "c15.check\tunitconstsym\t1", "c15.check\tvalues\t1"] \
         + [f"c15.check\tspace\t{w}\t{gen_sid.get(s, s)}" for s in sids if s in live
            for w in ("names", "table", "mks", "aliases", "suffixes", "registry")]
